@@ -1,7 +1,7 @@
 (* C03 — mask: exact residual signature after n positionals and named arguments. *)
 From Sigtools.Model Require Import Base Bind Roles Algebra.
 From Sigtools.Model Require Import Universe.
-From Sigtools.Proofs Require Import SmallModel Basics Deciders SweepDefs SweepDefs2 Bounded2 MaskLaws MaskExact.
+From Sigtools.Proofs Require Import SmallModel Basics Deciders SweepDefs SweepDefs2 Bounded2 MaskLaws MaskExact SweepDefs3 Bounded3.
 
 Theorem C03_wf s n names0 h r : mask s n names0 h = Ok r -> validate (params r) = true.
 Proof. exact (mask_wf s n names0 h r). Qed.
@@ -73,3 +73,14 @@ Example C03_positional_exact_nonvacuous :
   valid_sig [mkParam 1 PO None None UEmpty; mkParam 2 PK (Some 1) None UEmpty; mkParam 9 VP None None UEmpty] = true.
 Proof. reflexivity. Qed.
 Print Assumptions C03_positional_exact_nonvacuous.
+
+(* Bounded: mask(mask(sig, n), m) equals mask(sig, n + m) for every signature of
+   U(2,{a,b}) and n, m <= 3 (same parameters, or both raise) *)
+Theorem C03_compose_U2 s n m :
+  In s U2ab -> In n [0; 1; 2; 3]%nat -> In m [0; 1; 2; 3]%nat ->
+  match mask (mk s) n [] nohide with
+  | Ok r => res_params_eqb (mask r m [] nohide) (mask (mk s) (n + m) [] nohide) = true
+  | Err _ => exists e, mask (mk s) (n + m) [] nohide = Err e
+  end.
+Proof. exact (mask_compose_U2 s n m). Qed.
+Print Assumptions C03_compose_U2.
